@@ -151,6 +151,9 @@ def run_part(unit_dir, tag, tier, want_neg, part):
         res["built"] = None
         return res
     res["built"] = b
+    for p in b.pieces:
+        for (cid, tags, msg) in getattr(p, "lost_clauses", []):
+            res["undecided"].append("anchor lost for clause %s (%s)%s" % (cid, msg, "" if tags else " [untagged helper]"))
     jobs = {}
     with cf.ThreadPoolExecutor(max_workers=JOBS) as ex:
         jobs[ex.submit(V.run_verus, b.path)] = ("main", None, b)
